@@ -3,7 +3,7 @@
    documented parts; X-theorems give FastStochastic on the extremes of exactly the last min(t,p) prices. RateOfChange,
    EfficiencyRatio and MoneyFlowIndex are tied by the exact-rational instance (T2) — partial. *)
 From Coq Require Import Reals.
-From TA Require Import Base Model XR Proofs.Ring Proofs.Wiring Proofs.Osc Proofs.XFast Proofs.XRoc Proofs.XEr.
+From TA Require Import Base Model XR Proofs.Ring Proofs.Wiring Proofs.Osc Proofs.XFast Proofs.XRoc Proofs.XEr Proofs.XMfi.
 
 (* RSI = 100*U/(U+D), U and D the EMA(n) of gains and losses, both seeded 0.1 (so the first output is 50) *)
 Theorem C03_rsi : forall (F : Type) (O : Ops F) xs p (up down : @Ema F) prev is_new,
@@ -69,3 +69,13 @@ Theorem C03_er_spec : forall p h x,
   er_spec p h x = div XROps (Fin (Rabs (hd 0%R (er_path p h x) - x))) (Fin (plen (er_path p h x))) /\
   er_path p h x = match h with [] => [0%R; x] | _ => lastn (S p) (h ++ [x]) end.
 Proof. intros. split; reflexivity. Qed.
+
+(* MoneyFlowIndex = 100*PMF/(PMF+NMF) over the signed money flows of the last n typical-price moves, first output 50:
+   [flows tp0 bars] are the signed flows (+tp*v on a rise of the typical price, -tp*v on a fall, 0 if unchanged), PMF / NMF the sums of
+   the positive / negative ones in the window; bars with non-negative raw flow tp*v (positive prices, volume >= 0) *)
+Theorem C03_mfi : forall p s b0 bs, mfi_new XROps p = Ok s -> Forall (fun b => (0 <= rawr b)%R) bs ->
+  mfi_outs s (map mkm (b0 :: bs)) = Fin 50 :: mfi_spec_stream (N.to_nat p) b0 [] bs.
+Proof. exact mfi_refines. Qed.
+Theorem C03_mfi_spec : forall p b0 bs,
+  mfi_spec p b0 bs = (let w := lastn p (flows (tpr b0) bs) in mul XROps (div XROps (Fin (possum w)) (Fin (possum w + negsum w))) (Fin 100)).
+Proof. reflexivity. Qed.
